@@ -4,6 +4,8 @@ package main
 
 import (
 	"flag"
+	"io"
+	"log"
 	"fmt"
 	"math/rand"
 	"os"
@@ -24,6 +26,7 @@ type oracleFn func(r *rand.Rand, n int, tier string, infile string) (cases int, 
 var oracles = map[string]oracleFn{}
 
 func main() {
+	log.SetOutput(io.Discard) // the library logs dropped/invalid messages; they are not observations
 	if len(os.Args) < 2 {
 		names := []string{}
 		for k := range streams {
